@@ -921,16 +921,175 @@ fn show_maps(dump: &Dump) -> String {
             let _ = write!(s, "{},{},{},{},{},{},{},{}", x.address.0, x.address.1, x.perms.bits(), x.offset, x.dev.0 as u32, x.dev.1 as u32, x.inode, path);
         }
         s.push_str("]|");
-        let ps: Vec<String> = probes
-            .iter()
+        s.push_str(&show_probes(&probes));
+        s
+    })
+}
+
+/// lookups: in full for up to 160 of them, else their number and a hash (`MdModel.Bytes.showProbes`)
+fn show_probes(ps: &[(u64, Option<usize>)]) -> String {
+    if ps.len() <= 160 {
+        ps.iter()
             .map(|(a, i)| match i {
                 None => format!("{a}:~"),
                 Some(i) => format!("{a}:{i}"),
             })
-            .collect();
-        s.push_str(&ps.join(","));
-        s
-    })
+            .collect::<Vec<_>>()
+            .join(",")
+    } else {
+        let mut h: u64 = 0;
+        for (a, i) in ps {
+            h = (h * 1000003 + (a % 4294967296) + 7 * i.map(|x| x as u64 + 1).unwrap_or(0)) % 4294967296;
+        }
+        format!("#{}:{}", ps.len(), h)
+    }
+}
+
+fn show_indices(is: &[usize]) -> String {
+    if is.len() <= 160 {
+        is.iter().map(|i| i.to_string()).collect::<Vec<_>>().join(",")
+    } else {
+        let mut h: u64 = 0;
+        for i in is {
+            h = (h * 1000003 + *i as u64 + 1) % 4294967296;
+        }
+        format!("#{}:{}", is.len(), h)
+    }
+}
+
+/// `uni:` — `UnifiedMemoryInfoList::new(memory info list, linux maps)`: which one it serves, `iter().count()`,
+/// `by_addr()` and `memory_info_at_address` at both ends of every region (indices = pointer distances)
+fn show_unified(dump: &Dump) -> String {
+    let info = dump.get_stream::<MinidumpMemoryInfoList>().ok();
+    let maps = dump.get_stream::<MinidumpLinuxMaps>().ok();
+    let Some(u) = UnifiedMemoryInfoList::new(info, maps) else { return "-".into() };
+    let mut sink = Sink(0);
+    let _ = u.print(&mut sink);
+    let mut addrs: Vec<u64> = meter::unmetered(|| vec![0, 0x1000, u64::MAX]);
+    let (kind, first, stride): (&str, usize, usize) = match (u.info(), u.maps()) {
+        (Some(l), _) => {
+            meter::unmetered(|| {
+                for r in l.iter() {
+                    let (b, z) = (r.raw.base_address, r.raw.region_size);
+                    if b > 0 {
+                        addrs.push(b - 1);
+                    }
+                    addrs.push(b);
+                    if z > 0 {
+                        if let Some(e) = b.checked_add(z - 1) {
+                            addrs.push(e);
+                        }
+                    }
+                    if let Some(e) = b.checked_add(z) {
+                        addrs.push(e);
+                    }
+                }
+            });
+            ("info", l.iter().next().map(|r| r as *const MinidumpMemoryInfo as usize).unwrap_or(0), std::mem::size_of::<MinidumpMemoryInfo>())
+        }
+        (None, Some(l)) => {
+            meter::unmetered(|| {
+                for r in l.iter() {
+                    let (lo, hi) = r.map.address;
+                    if lo > 0 {
+                        addrs.push(lo - 1);
+                    }
+                    addrs.push(lo);
+                    addrs.push(hi);
+                    if hi < u64::MAX {
+                        addrs.push(hi + 1);
+                    }
+                }
+            });
+            ("maps", l.iter().next().map(|r| r as *const MinidumpLinuxMapInfo as usize).unwrap_or(0), std::mem::size_of::<MinidumpLinuxMapInfo>())
+        }
+        (None, None) => return "MISMATCH:unified-empty".into(),
+    };
+    let idx_of = |x: UnifiedMemoryInfo| -> usize {
+        let p = match x {
+            UnifiedMemoryInfo::Info(r) => r as *const MinidumpMemoryInfo as usize,
+            UnifiedMemoryInfo::Map(r) => r as *const MinidumpLinuxMapInfo as usize,
+        };
+        (p - first) / stride
+    };
+    let count = u.iter().count();
+    let mut by_addr: Vec<usize> = meter::unmetered(Vec::new);
+    for x in u.by_addr() {
+        let i = idx_of(x);
+        meter::unmetered(|| by_addr.push(i));
+    }
+    let mut probes: Vec<(u64, Option<usize>)> = meter::unmetered(|| Vec::with_capacity(addrs.len()));
+    for a in &addrs {
+        let hit = u.memory_info_at_address(*a).map(idx_of);
+        probes.push((*a, hit));
+    }
+    meter::unmetered(|| format!("{}/{}/[{}]/{}", kind, count, show_indices(&by_addr), show_probes(&probes)))
+}
+
+fn show_os_parts(dump: &Dump) -> String {
+    let Ok(s) = dump.get_stream::<MinidumpSystemInfo>() else { return "-".into() };
+    let (v, b) = s.os_parts();
+    meter::unmetered(|| format!("{}/{}", name_hex(&v), opt_name(&b)))
+}
+
+/// `ids:` — per module the four identifier accessors and the number of bytes `print` renders as hex
+fn show_module_ids(dump: &Dump) -> String {
+    let Ok(l) = dump.get_stream::<MinidumpModuleList>() else { return "-".into() };
+    let mut out = meter::unmetered(|| String::from("ok["));
+    for m in l.iter() {
+        let dbg = m.debug_identifier().map(|d| d.breakpad().to_string());
+        let code = m.code_identifier().map(|c| c.to_string());
+        let file = m.debug_file().map(|f| f.into_owned());
+        let ver = m.version().map(|v| v.into_owned());
+        let mut text = meter::unmetered(|| Vec::with_capacity(4096));
+        let _ = m.print(&mut text);
+        meter::unmetered(|| {
+            let o = |s: &Option<String>| match s {
+                None => "-".to_string(),
+                Some(s) => format!("={s}"),
+            };
+            let hexed: Option<&[u8]> = match &m.codeview_info {
+                Some(CodeView::Elf(r)) => Some(&r.build_id),
+                Some(CodeView::Unknown(b)) => Some(b),
+                _ => None,
+            };
+            let n = hexed.map(|b| b.len()).unwrap_or(0);
+            if let Some(b) = hexed {
+                let text = String::from_utf8_lossy(&text);
+                let hx = if b.is_empty() { String::new() } else { hex(b) };
+                if !text.contains(&format!("= {hx}\n")) {
+                    out.push_str("MISMATCH:print-hex;");
+                }
+            }
+            let _ = write!(out, "{}/{}/{}/{}/{};", o(&dbg), o(&code), opt_name(&file), o(&ver), n);
+        });
+    }
+    out.push(']');
+    out
+}
+
+fn show_unloaded_ids(dump: &Dump) -> String {
+    let Ok(l) = dump.get_stream::<MinidumpUnloadedModuleList>() else { return "-".into() };
+    let mut out = meter::unmetered(|| String::from("ok["));
+    for m in l.iter() {
+        if m.debug_file().is_some() || m.debug_identifier().is_some() || m.version().is_some() {
+            return "MISMATCH:unloaded-accessor".into();
+        }
+        let code = m.code_identifier().map(|c| c.to_string()).unwrap_or_else(|| "?".into());
+        meter::unmetered(|| {
+            out.push_str(&code);
+            out.push(';');
+        });
+    }
+    out.push(']');
+    out
+}
+
+fn show_soft(dump: &Dump) -> String {
+    match dump.get_stream::<MinidumpSoftErrors>() {
+        Err(e) => err_name(&e),
+        Ok(s) => format!("ok {}", s.as_ref().len()),
+    }
 }
 
 // ------------------------------------------------------------------------------ phase B (sweep)
@@ -1279,6 +1438,12 @@ fn run_case(all: &[u8], shared: &Arc<meter::Shared>) -> CaseOut {
                             // apart here; the generator's TEB-region cases cover it
                         }
                     }
+                    if tag == "uni" && s != "-" {
+                        o.tags.push(format!("uni={}", s.split('/').next().unwrap_or("").replace(':', "-")));
+                    }
+                    if tag == "osp" && s != "-" {
+                        o.tags.push(format!("osp={}", if s.ends_with("/-") { "no-build" } else { "build" }));
+                    }
                     if tag == "maps" && s.starts_with("PANIC:") {
                         o.tags.push(format!("maps={}", s.replace(':', "-")));
                     }
@@ -1314,6 +1479,15 @@ fn run_case(all: &[u8], shared: &Arc<meter::Shared>) -> CaseOut {
                 None => format!("PANIC:{}", maps_panic_class(&LAST_PANIC.with(|p| p.borrow().clone()))),
             };
             addx(&mut o, "maps", "-", &|| maps_s.clone());
+            let uni_s = match o.guard("UnifiedMemoryInfoList::{new, iter, by_addr, memory_info_at_address, print}", || show_unified(&dump)) {
+                Some(s) => s,
+                None => format!("PANIC:{}", maps_panic_class(&LAST_PANIC.with(|p| p.borrow().clone()))),
+            };
+            addx(&mut o, "uni", "-", &|| uni_s.clone());
+            addx(&mut o, "osp", "MinidumpSystemInfo::os_parts", &|| show_os_parts(&dump));
+            addx(&mut o, "ids", "MinidumpModule::{debug_identifier, code_identifier, debug_file, version, print}", &|| show_module_ids(&dump));
+            addx(&mut o, "uids", "MinidumpUnloadedModule::code_identifier", &|| show_unloaded_ids(&dump));
+            addx(&mut o, "soft", "get_stream::<MinidumpSoftErrors>", &|| show_soft(&dump));
             let gm = o
                 .guard("get_memory", || match dump.get_memory() {
                     Some(UnifiedMemoryList::Memory64(_)) => "mem64",
@@ -1762,6 +1936,21 @@ fn maps_text(rng: &mut Rng) -> Vec<u8> {
         }
         return out.into_bytes();
     }
+    if rng.chance(1, 4) {
+        // an smaps-style text: benign entries, each followed by attribute lines — among them the shapes around the
+        // `v * 1024` overflow (2^54 kB overflows, 2^54 - 1 does not; no suffix = no multiplication; `VmFlags…` is exempt)
+        for i in 0..1 + rng.below(3) {
+            out.push_str(&format!("{:08x}-{:08x} rw-p 00000000 00:00 0 {}\n", 0x10000 * (i + 1), 0x10000 * (i + 1) + 0x1000, rng.pick(&["[heap]", "", "/lib/x.so", "[stack:12]", "/SYSV00000000 (deleted)"])));
+            for _ in 0..rng.below(4) {
+                out.push_str(*rng.pick(&[
+                    "Rss: 4 kB\n", "Size: 18446744073709551615 kB\n", "Rss: 18014398509481984 kB\n", "Pss: 18014398509481983 kB\n", "VmFlags: rd ex mr\n",
+                    "VmFlagsX 18014398509481984 kB\n", "Rss: 18014398509481984\n", "Rss:\t18014398509481984\tkB extra\n", "Rss: +18014398509481984 kB\n", "Rss: x kB\n", "Rss:\n",
+                    "THPeligible:    0\n", "Name 18446744073709551616 kB\n",
+                ]));
+            }
+        }
+        return out.into_bytes();
+    }
     let hex = |rng: &mut Rng| -> String {
         match rng.below(10) {
             0 => "0".into(),
@@ -1881,6 +2070,226 @@ fn misc_blob(rng: &mut Rng, be: bool, size: usize, flags: u32, units: u32, enabl
         w.buf[840..848].copy_from_slice(&b);
     }
     w.buf
+}
+
+/// A CodeView record blob of the given kind, cut / padded / with hostile file names:
+/// `kind` 0 = PDB 7.0 (`RSDS`), 1 = PDB 2.0 (`NB10`), 2 = ELF build id (`BpEL`), 3 = unknown signature.
+fn cv_blob(rng: &mut Rng, be: bool, kind: u32) -> Vec<u8> {
+    let mut w = W { buf: Vec::new(), be };
+    let names: [&[u8]; 14] = [
+        b"app.pdb\0",
+        b"app.pdb",
+        b"",
+        b"\0",
+        b"a\0b\0",
+        b"\xff\xfe.pdb\0",
+        b"caf\xc3\xa9.pdb\0",
+        b"cut\xc3",
+        b"\xc0\x80overlong\0",
+        b"\xed\xa0\x80surrogate\0",
+        b"\xf0\x9f\x98\x80ok\0",
+        b"\xf0\x9f\x98",
+        b"\xe2\x82x\xf4\x90\x80\x80y\x80\0",
+        b"line\nbreak\r\n\0",
+    ];
+    match kind {
+        0 => {
+            w.u32(0x5344_5352);
+            // GUID: nil, all ones, random
+            match rng.below(4) {
+                0 => w.buf.extend_from_slice(&[0; 16]),
+                1 => w.buf.extend_from_slice(&[0xff; 16]),
+                _ => {
+                    w.u32(rng.next() as u32);
+                    let (a, b) = (rng.next() as u16, rng.next() as u16);
+                    if be {
+                        w.buf.extend_from_slice(&a.to_be_bytes());
+                        w.buf.extend_from_slice(&b.to_be_bytes());
+                    } else {
+                        w.buf.extend_from_slice(&a.to_le_bytes());
+                        w.buf.extend_from_slice(&b.to_le_bytes());
+                    }
+                    for _ in 0..8 {
+                        w.buf.push(rng.next() as u8);
+                    }
+                }
+            }
+            w.u32(*rng.pick(&[0u32, 1, 0xa, u32::MAX, 0x1234_5678]));
+            w.buf.extend_from_slice(*rng.pick(&names[..]));
+        }
+        1 => {
+            w.u32(0x3031_424e);
+            w.u32(rng.below(3) as u32);
+            w.u32(*rng.pick(&[0u32, 0x4b3f_2a1d, u32::MAX]));
+            w.u32(*rng.pick(&[0u32, 1, 0xabc, u32::MAX]));
+            w.buf.extend_from_slice(*rng.pick(&names[..]));
+        }
+        2 => {
+            w.u32(0x4270_454c);
+            let n = *rng.pick(&[0usize, 1, 3, 8, 15, 16, 17, 20, 32, 64]);
+            let zero = rng.chance(1, 4);
+            for k in 0..n {
+                w.buf.push(if zero || (rng.chance(1, 6) && k < 16) { 0 } else { rng.next() as u8 });
+            }
+        }
+        _ => {
+            let r = rng.next() as u32;
+            w.u32(*rng.pick(&[0u32, 0x5344_5353, 0x3031_424d, u32::MAX, r]));
+            for _ in 0..rng.below(40) {
+                w.buf.push(rng.next() as u8);
+            }
+        }
+    }
+    // cut anywhere now and then (a record shorter than its fixed part, a GUID / age cut in the middle)
+    if rng.chance(1, 3) {
+        let k = rng.below(w.buf.len() as u64 + 1) as usize;
+        w.buf.truncate(k);
+    }
+    w.buf
+}
+
+/// Directed: the records the identifier accessors, `os_parts`, `UnifiedMemoryInfoList` and the soft-errors
+/// reader work on — a system info of a chosen platform / version / CSD text, a module list whose CodeView
+/// records are `cv_blob`s, an unloaded-module list, a memory-info list with empty / huge / overlapping /
+/// wrapping regions, optionally Linux maps, optionally a soft-errors stream (UTF-8 or not).
+fn ids_dump(rng: &mut Rng, be: bool, idx: usize) -> Vec<u8> {
+    let mut w = start_dump(be);
+    let mut dir: Vec<(u32, u32, u32)> = Vec::new();
+    let csds = [
+        "Linux 5.4.0-42-generic #46-Ubuntu SMP Fri Jul 10 00:24:02 UTC 2020 x86_64 Linux/GNU",
+        "Linux 5.4.0-42-generic #46-Ubuntu SMP x86_64",
+        "Linux 4.9.0 Linux/GNU",
+        "Linux 0.0.0 #1 x86_64 Linux/GNU",
+        "Linux",
+        "Linux ",
+        "Linux  x  Linux/GNU",
+        "Linux 6.1 Linux/GNU Linux/GNU",
+        "Linux/GNU",
+        "",
+        " ",
+        "\u{2003}Service Pack 1\u{a0}",
+        "\t\n 19H2 \u{3000}",
+        "a b",
+    ];
+    let s_csd = w.utf16(csds[idx % csds.len()]);
+    let s_name = w.utf16(*rng.pick(&["libxul.so", "C:\\w\\app.exe", "", "caf\u{e9}\u{1F600}", "/SYSV00000000 (deleted)"]));
+    // CodeView blobs
+    let mut cvs = Vec::new();
+    for k in 0..3u32 {
+        let blob = cv_blob(rng, be, (idx as u32 / 2 + k) % 4);
+        let at = w.here();
+        w.buf.extend_from_slice(&blob);
+        cvs.push((blob.len() as u32, at));
+    }
+    // system info
+    if idx % 9 != 8 {
+        let at = w.here();
+        let put16 = |w: &mut W, v: u16| {
+            if w.be {
+                w.buf.extend_from_slice(&v.to_be_bytes())
+            } else {
+                w.buf.extend_from_slice(&v.to_le_bytes())
+            }
+        };
+        put16(&mut w, *rng.pick(&[0u16, 9, 12, 5]));
+        put16(&mut w, 6);
+        put16(&mut w, 0x0d08);
+        w.buf.push(2);
+        w.buf.push(1);
+        let zero_ver = idx % 3 != 2;
+        w.u32(if zero_ver { 0 } else { *rng.pick(&[10u32, 0, u32::MAX]) });
+        w.u32(if zero_ver { 0 } else { rng.below(3) as u32 });
+        w.u32(if zero_ver { 0 } else { *rng.pick(&[19041u32, 0, 1]) });
+        w.u32([0x8201u32, 0x8201, 2, 0x8101, 0x8203, 0x8102, 0x7fff_ffff][idx % 7]);
+        w.u32(*rng.pick(&[s_csd, s_csd, s_csd, s_csd, 0, u32::MAX]));
+        put16(&mut w, 0);
+        put16(&mut w, 0);
+        w.buf.extend_from_slice(b"GenuineIntel\x01\x02\x03\x04\x05\x06\x07\x08\x09\x0a\x0b\x0c");
+        dir.push((7, w.here() - at, at));
+    }
+    // module list
+    {
+        let at = w.here();
+        w.u32(cvs.len() as u32);
+        for (k, (sz, rva)) in cvs.iter().enumerate() {
+            w.u64(0x40_0000 + 0x10_0000 * k as u64);
+            w.u32(0x8000);
+            w.u32(0);
+            w.u32(*rng.pick(&[0x4b3f_2a1du32, 0, u32::MAX]));
+            w.u32(s_name);
+            // VS_FIXEDFILEINFO: a real signature / struct version most of the time
+            let good = rng.chance(3, 4);
+            w.u32(if good { 0xfeef_04bd } else { rng.next() as u32 });
+            w.u32(if good { 0x0001_0000 } else { 0 });
+            for _ in 0..11 {
+                w.u32(*rng.pick(&[0u32, 1, 0x0005_0002, 0xffff_ffff, 0x0001_0000]));
+            }
+            // cv_record: the blob, one byte more / less, or absent
+            let dsz = match rng.below(8) {
+                0 => sz.wrapping_sub(1),
+                1 => sz + 1,
+                2 => 0,
+                _ => *sz,
+            };
+            w.u32(dsz);
+            w.u32(*rva);
+            w.u32(0);
+            w.u32(0);
+            w.u64(0);
+            w.u64(0);
+        }
+        dir.push((4, w.here() - at, at));
+    }
+    // unloaded modules
+    if idx % 2 == 0 {
+        let at = w.here();
+        w.u32(12);
+        w.u32(24);
+        w.u32(2);
+        for k in 0..2u64 {
+            w.u64(0x7000_0000 + 0x1_0000 * k);
+            w.u32(*rng.pick(&[0x1000u32, 1, u32::MAX]));
+            w.u32(0);
+            w.u32(*rng.pick(&[0u32, 0x5f00_0000, u32::MAX]));
+            w.u32(s_name);
+        }
+        dir.push((14, w.here() - at, at));
+    }
+    // memory info list: empty, huge, overlapping, identical, wrapping regions
+    if idx % 4 != 3 {
+        let at = w.here();
+        let n = 1 + rng.below(6) as u32;
+        w.u32(16);
+        w.u32(48);
+        w.u64(n as u64);
+        for _ in 0..n {
+            let base = *rng.pick(&[0u64, 0x1000, 0x2000, 0x2800, u64::MAX - 0xfff, u64::MAX, 0x7fff_0000_0000]);
+            let size = *rng.pick(&[0u64, 1, 0x1000, 0x1000, 0x1800, u64::MAX, 0x1_0000_0000]);
+            w.u64(base);
+            w.u64(base);
+            w.u32(4);
+            w.u32(0);
+            w.u64(size);
+            w.u32(0x1000);
+            w.u32(*rng.pick(&[0x04u32, 0x20, 0x40, 0x01, 0]));
+            w.u32(0x2_0000);
+            w.u32(0);
+        }
+        dir.push((16, w.here() - at, at));
+    }
+    if idx % 4 >= 2 {
+        let t = maps_text(rng);
+        let at = w.here();
+        w.buf.extend_from_slice(&t);
+        dir.push((0x4767_0009, t.len() as u32, at));
+    }
+    if idx % 3 == 0 {
+        let t: &[u8] = *rng.pick(&[&b"[]"[..], b"[{\"error\": \"x\"}]", b"", b"\xff\xfe", b"caf\xc3\xa9", b"cut\xc3", b"\xed\xa0\x80"]);
+        let at = w.here();
+        w.buf.extend_from_slice(t);
+        dir.push((0x4d7a_0004, t.len() as u32, at));
+    }
+    finish_dump(w, &dir)
 }
 
 fn crafted_dump(rng: &mut Rng, be: bool, idx: usize) -> Vec<u8> {
@@ -2197,7 +2606,7 @@ fn crafted_dump(rng: &mut Rng, be: bool, idx: usize) -> Vec<u8> {
         let r32 = rng.next() as u32;
         let flags = *rng.pick(&[0u32, u32::MAX, 0x3f7, 0x100, 0x40, 0x200, 0x2, r32 & 0x3ff, r32]);
         let r64 = rng.next();
-        let enabled = *rng.pick(&[0u64, u64::MAX, 1, 1 << 63, 0x8000_0000_0000_01ff, r64]);
+        let enabled = *rng.pick(&[0u64, u64::MAX, 1, 1 << 63, (1 << 63) | 1, 1 << 62, 3 << 62, 0x8000_0000_0000_01ff, r64, r64 | (1 << 63)]);
         let units = rng.below(5) as u32;
         let blob = misc_blob(rng, be, size, flags, units, enabled);
         let at = w.here();
@@ -2674,7 +3083,9 @@ impl Engine for Read {
                     for units in 0..4u32 {
                         let be = (bi + fi + units as usize) % 2 == 1;
                         let size = (base as i64 + delta) as usize;
-                        let blob = misc_blob(rng, be, size, flags, units, if units % 2 == 0 { u64::MAX } else { 0x8000_0000_0000_0105 });
+                        // `enabled_features`: all ones, only bit 63, only bit 0, bits 63 and 0 — the last iterations of `XstateFeatureIter`
+                        let enabled = [u64::MAX, 1 << 63, 1, (1 << 63) | 1][(units as usize + fi) % 4];
+                        let blob = misc_blob(rng, be, size, flags, units, enabled);
                         let mut w = start_dump(be);
                         let at = w.here();
                         w.buf.extend_from_slice(&blob);
@@ -2682,6 +3093,11 @@ impl Engine for Read {
                     }
                 }
             }
+        }
+        // ---- directed: CodeView records of every kind (cut, hostile file names, zero / short build ids), Linux
+        // `uname` texts for `os_parts`, memory-info lists for `UnifiedMemoryInfoList`, soft-errors streams
+        for i in 0..(if tier == Tier::Quick { 504 } else { 2016 }) {
+            emit(case_line(&ids_dump(rng, i % 5 == 4, i), "directed-ids"));
         }
         // ---- arbitrary bytes
         for i in 0..300 * scale {
